@@ -56,13 +56,17 @@ type monState struct {
 	worldOfJob map[string]int
 	forcedCancel map[string]bool // jobs cancelled by forced shutdown
 	undefinedAt  map[string]int  // pipeline -> last step at which a reload left it undefined
+	lastSeen     map[string]*JobSnap // last API report of every job ever seen
+	snapAtSave   map[int]*Snap       // handed-save index -> API snapshot at the instant the snapshot was built
+	lastChangeAt time.Duration       // fake time of the last step that changed the reported state
 }
 
 func newMonState(run *Run) *monState {
 	return &monState{run: run, acc: map[string]*acceptInfo{}, evByJob: map[string][]Event{},
 		startStep: map[string]int{}, startAt: map[string]time.Duration{}, defChanged: map[string]int{},
 		removed: map[string]int{}, firstFail: map[string]int{}, taskOrderByDef: map[string]string{},
-		worldOfJob: map[string]int{}, forcedCancel: map[string]bool{}, undefinedAt: map[string]int{}}
+		worldOfJob: map[string]int{}, forcedCancel: map[string]bool{}, undefinedAt: map[string]int{},
+		lastSeen: map[string]*JobSnap{}, snapAtSave: map[int]*Snap{}}
 }
 
 func (m *monState) pipelineOf(job string) string {
@@ -139,6 +143,12 @@ func (m *monState) onStep(si *StepInfo, pre, post *Snap, evs []Event) {
 	}
 	if len(post.Dup) > 0 {
 		run.violate("C15", "r3d", "job %v reported twice by IterateJobs", post.Dup)
+	}
+	for name, j := range post.Jobs {
+		if old := m.lastSeen[name]; old == nil || run.trackChanges && old.digest() != j.digest() {
+			m.lastChangeAt = post.At
+		}
+		m.lastSeen[name] = j
 	}
 
 	// --- operation results
@@ -928,6 +938,9 @@ func (m *monState) onSettled() {
 		run.probe("settled_with_waiting")
 	}
 	// C15 r1 is checked by the probe step that follows
+	if run.sc.Cfg.PersistCheck && s.At-m.lastChangeAt >= 6100*time.Millisecond {
+		m.checkPersistLiveness()
+	}
 }
 
 // ---------------------------------------------------------------------------
@@ -1134,10 +1147,6 @@ func (m *monState) hasBadAncestor(j *JobSnap, task string, seen map[string]bool)
 	return false
 }
 
-// stubs for monitors defined in other files (store / shutdown / restart)
-func (m *monState) checkSaveStep(si *StepInfo, pre, post *Snap, evs []Event)     {}
-func (m *monState) checkShutdownReturn(si *StepInfo, res *OpResult, pre, post *Snap) {}
-func (m *monState) onRestart(w, old *World)                                       {}
 
 func sortedJobNames(m map[string]*JobSnap) []string {
 	ks := make([]string, 0, len(m))
